@@ -387,6 +387,44 @@ func TestC05(t *testing.T) {
 		runDiff(rec, rt, "operator", c, false, nil, "op:"+op, "operand-order", "right:"+form)
 	})
 
+	// ~ and !~ with patterns given as strings and as regex literals: every piece of RE2
+	// syntax (escapes, classes, anchors, alternation, repetition, groups, flags) and the
+	// usual ways of being invalid, against subjects that tell "matched as a pattern" from
+	// "found as a substring"
+	check(rec, "pattern-syntax", scale(3000, 1000000), func(rt *rapid.T) {
+		pats := []string{"\\\\d", "\\\\w+", "x\\\\sy", "\\\\.", "\\\\bbar", "\\\\x41", "\\\\", "a\\\\", "[0-9]+", "^a", "b$", "a|b", "a*", "a+?", "(a)(b)", "(?i)ab", "a{2}", "a{2", ".", "", "(", ")", "[", "a**", "\\\\Q.\\\\E", "[[:alpha:]]", "\\\\pL", "\\\\1"}
+		subs := []string{"a1", "x y", "a.b", "\\\\d", "foo bar", "A", "ab", "aab", "", ".", "a{2", "é", "AB", "x\\\\sy", "\\\\"}
+		n := rapid.IntRange(1, 4).Draw(rt, "npat")
+		fun := ast.Func("fun", nil, ast.Block(ast.Return(ast.Num("1"))))
+		var stmts []*ast.Node
+		var names []string
+		for k := 0; k < n; k++ {
+			op := rapid.SampledFrom([]string{"~", "!~"}).Draw(rt, "top")
+			pat := rapid.SampledFrom(pats).Draw(rt, "pat")
+			sub := rapid.SampledFrom(subs).Draw(rt, "sub")
+			var b *ast.Node
+			switch rapid.IntRange(0, 2).Draw(rt, "patform") {
+			case 0:
+				b = ast.Str(pat)
+			case 1:
+				stmts = append(stmts, ast.ExprS(ast.Set(ast.Id("pv"), ast.Str(pat))))
+				b = ast.Id("pv")
+			default:
+				b = ast.Str(pat)
+				if !strings.Contains(pat, "/") && pat != "" && !strings.HasPrefix(pat, "=") {
+					// the same source text as a regex literal (its text is taken as it stands:
+					// the string escape \\ is one backslash there)
+					b = ast.Regex(strings.ReplaceAll(pat, "\\\\", "\\"))
+				}
+			}
+			stmts = append(stmts, ast.ExprS(ast.Set(ast.Id("r"), ast.Bin(op, ast.Str(sub), b))))
+			stmts = append(stmts, c05Observe()...)
+			names = append(names, sub+" "+op+" "+pat)
+		}
+		c := &DCase{Prog: ast.Prog(fun, ast.Rule("BEGIN", nil, ast.Block(stmts...))), Tag: "pattern syntax: " + strings.Join(names, " ; ")}
+		runDiff(rec, rt, "operator", c, false, nil, "pattern-syntax")
+	})
+
 	// random operands
 	check(rec, "operator-random", scale(20000, 20000000), func(rt *rapid.T) {
 		kind := rapid.SampledFrom([]string{"bin", "bin", "bin", "bin", "un", "is"}).Draw(rt, "kind")
